@@ -46,6 +46,7 @@ func genC03(t *rapid.T) hsConfig {
 	if c.RMax == 0 && c.Pattern == "XX" && c.AuthLen > 498 {
 		c.AuthLen = 498 // the fixed-size v0 field; larger payloads are C04's subject
 	}
+	c.StaleAuth = rapid.IntRange(0, 3).Draw(t, "stale_auth") == 0
 	return c
 }
 
@@ -74,8 +75,8 @@ func runC03(c hsConfig) (violation string) {
 	if n := len(p.r2i.Written); n != 0 {
 		return fmt.Sprintf("mismatching secrets: the responder emitted %d handshake message(s) before aborting", n)
 	}
-	if p.I.cd.AuthData() != nil {
-		return "mismatching secrets: the initiator holds auth data"
+	if !bytes.Equal(p.I.cd.AuthData(), staleAuth(c)) || (p.I.cd.AuthData() != nil) != c.StaleAuth {
+		return "mismatching secrets: the initiator's auth data changed"
 	}
 	if len(p.I.gotAuth)+len(p.R.gotAuth)+len(p.I.gotRemote)+len(p.R.gotRemote) != 0 {
 		return "mismatching secrets: an onAuthData/onRemoteStatic callback fired"
@@ -483,6 +484,7 @@ func TestC04Rapid(t *testing.T) {
 			rapid.IntRange(0, 3<<20),
 		).Draw(rt, "auth_len")
 		c.Cfg.NilAuth = rapid.IntRange(0, 9).Draw(rt, "nil_auth") == 0
+		c.Cfg.StaleAuth = rapid.IntRange(0, 2).Draw(rt, "stale_auth") == 0
 		switch rapid.IntRange(0, 2).Draw(rt, "mitm") {
 		case 0:
 			c.Mitm.Kind = "none"
@@ -509,6 +511,12 @@ func TestC04Rapid(t *testing.T) {
 		}
 		if c.Cfg.AuthLen > 65535 {
 			labels = append(labels, "payload_gt_64k")
+		}
+		if c.Cfg.StaleAuth && r.bothDone {
+			labels = append(labels, "initiator_held_earlier_auth_data")
+			if c.Cfg.AuthLen == 0 || c.Cfg.NilAuth {
+				labels = append(labels, "earlier_auth_data_replaced_by_empty")
+			}
 		}
 		rec.Case(nt, fmt.Sprintf("%+v", c), labels...)
 		if nt && rec.WantSample() {
